@@ -1,25 +1,19 @@
 (* Proofs/TagfilterProofs.v — lemmas behind Props/C14.v *)
 From Coq Require Import List NArith Bool Lia Arith Strings.String.
-From V Require Import Base.Bytes Base.Res Gen.Ctype Gen.Tagfilter Model.Escape Model.Tagfilter
+From V Require Import Base.Bytes Base.Res Gen.Tagfilter Model.Escape Model.Tagfilter
   Spec.GfmFilter Proofs.EscapeProofs.
 Import ListNotations.
 Local Open Scope list_scope.
 
 (* ---------------------------------------------------------------- finite facts *)
 
-(* comrak's isspace (regenerated ctype table) is space, tab, LF, CR *)
-Lemma isspace_is_narrow : forall b, Bool.eqb (isspace b) (narrow_ws b) = true.
+(* the byte set that ends a tag name in the code (regenerated from the matches! pattern of tagfilter)
+   is the GFM whitespace set: space, tab, LF, line tabulation, form feed, CR *)
+Lemma tf_space_is_gfm_all : forall b, Bool.eqb (tf_space b) (gfm_ws b) = true.
 Proof. apply forall_bytes. vm_compute. reflexivity. Qed.
 
-Lemma isspace_narrow b : isspace b = narrow_ws b.
-Proof. apply eqb_prop. apply isspace_is_narrow. Qed.
-
-Lemma narrow_vs_gfm_all : forall b,
-  Bool.eqb (narrow_ws b) (gfm_ws b && negb (beqb b x0b || beqb b x0c)) = true.
-Proof. apply forall_bytes. vm_compute. reflexivity. Qed.
-
-Lemma narrow_vs_gfm b : narrow_ws b = gfm_ws b && negb (beqb b x0b || beqb b x0c).
-Proof. apply eqb_prop. apply narrow_vs_gfm_all. Qed.
+Lemma tf_space_gfm b : tf_space b = gfm_ws b.
+Proof. apply eqb_prop. apply tf_space_is_gfm_all. Qed.
 
 Lemma lower_agree_all : forall b, beqb (to_lower_ascii b) (ascii_lower b) = true.
 Proof. apply forall_bytes. vm_compute. reflexivity. Qed.
@@ -146,12 +140,12 @@ Qed.
 
 Lemma tf_terminator_spec : forall pre rest n,
   n < List.length rest ->
-  tf_terminator (pre ++ rest) (List.length pre + n) = Ok (tag_end isspace (skipn n rest)).
+  tf_terminator (pre ++ rest) (List.length pre + n) = Ok (tag_end tf_space (skipn n rest)).
 Proof.
   intros pre rest n Hn. destruct (skipn_nonempty n rest Hn) as [c [r E]].
   destruct (skipn_cons_nth n rest c r E) as [N1 [N2 N3]].
   unfold tf_terminator, idx. rewrite nth_error_app_r, N1. cbn [bind]. rewrite E. cbn [tag_end].
-  destruct (isspace c); [reflexivity|]. cbn [orb].
+  destruct (tf_space c); [reflexivity|]. cbn [orb].
   destruct (beqb c x3e); [reflexivity|]. cbn [orb].
   destruct (beqb c x2f); [|reflexivity]. cbn [andb].
   rewrite app_length, N3.
@@ -165,7 +159,7 @@ Proof.
 Qed.
 
 Definition name_hit (r : bytes) (n : bytes) : bool :=
-  name_prefix_ci r n && tag_end isspace (skipn (List.length n) r).
+  name_prefix_ci r n && tag_end tf_space (skipn (List.length n) r).
 
 Lemma tf_names_spec : forall names pre rest,
   (forall t, In t names -> forall y, In y t -> to_lower_ascii y = y) ->
@@ -185,7 +179,7 @@ Proof.
     cbn [bind]. rewrite eq_ci_firstn; [|apply Hlow; left; reflexivity|lia].
     unfold name_hit at 1. destruct (name_prefix_ci rest t) eqn:M.
     + rewrite tf_terminator_spec by exact L. cbn [andb].
-      destruct (tag_end isspace (skipn (List.length t) rest)) eqn:T; [reflexivity|]. cbn [orb].
+      destruct (tag_end tf_space (skipn (List.length t) rest)) eqn:T; [reflexivity|]. cbn [orb].
       destruct (existsb (name_hit rest) names) eqn:E; [|reflexivity]. exfalso.
       apply existsb_exists in E. destruct E as [x [Hx Hh]]. unfold name_hit in Hh.
       apply andb_true_iff in Hh. destruct Hh as [Hp Ht].
@@ -225,7 +219,7 @@ Lemma dis_not_lt ws c l : beqb c x3c = false -> disallowed_at_ws ws (c :: l) = f
 Proof. intro H. cbn [disallowed_at_ws]. rewrite H. reflexivity. Qed.
 
 Lemma name_then_end_hit r :
-  name_then_end isspace r = existsb (name_hit r) gfm_disallowed_names.
+  name_then_end tf_space r = existsb (name_hit r) gfm_disallowed_names.
 Proof. reflexivity. Qed.
 
 Lemma dis_short ws s : List.length s < 5 -> disallowed_at_ws ws s = false.
@@ -233,8 +227,8 @@ Proof.
   intro H. destruct (disallowed_at_ws ws s) eqn:D; [apply disallowed_length in D; lia|reflexivity].
 Qed.
 
-(* the model computes exactly the spec predicate instantiated with comrak's isspace; total *)
-Lemma tagfilter_model s : tagfilter s = Ok (disallowed_at_ws isspace s).
+(* the model computes exactly the spec predicate instantiated with the code's terminator set; total *)
+Lemma tagfilter_model s : tagfilter s = Ok (disallowed_at_ws tf_space s).
 Proof.
   assert (Hlow : forall t, In t tagfilter_blacklist -> forall y, In y t -> to_lower_ascii y = y)
     by (rewrite blacklist_is_gfm; intros t Ht; apply (name_facts t Ht)).
@@ -294,7 +288,7 @@ Proof.
 Qed.
 
 Lemma tfb_loop_spec : forall fuel s out,
-  List.length s < fuel -> tfb_loop fuel out s = Ok (out ++ gfm_filter_ws isspace s).
+  List.length s < fuel -> tfb_loop fuel out s = Ok (out ++ gfm_filter_ws tf_space s).
 Proof.
   induction fuel as [|f IH]; intros s out Hlen; [lia|].
   cbn [tfb_loop]. destruct s as [|b0 s0].
@@ -310,7 +304,7 @@ Proof.
       * rewrite E1, app_length in Hlen. cbn [List.length] in Hlen. lia.
 Qed.
 
-Lemma tagfilter_block_model s : tagfilter_block s = Ok (gfm_filter_ws isspace s).
+Lemma tagfilter_block_model s : tagfilter_block s = Ok (gfm_filter_ws tf_space s).
 Proof. unfold tagfilter_block. rewrite tfb_loop_spec by lia. reflexivity. Qed.
 
 Lemma tagfilter_block_total s : exists o, tagfilter_block s = Ok o.
@@ -380,62 +374,25 @@ Section TwoWs.
   Qed.
 End TwoWs.
 
-Definition no_vt_ff (s : bytes) : bool := forallb (fun b => negb (beqb b x0b || beqb b x0c)) s.
+Lemma disallowed_tf_space s : disallowed_at_ws tf_space s = disallowed_at s.
+Proof. apply disallowed_local. intros b _. apply tf_space_gfm. Qed.
 
-Lemma isspace_gfm_on s : no_vt_ff s = true -> forall b, In b s -> isspace b = gfm_ws b.
-Proof.
-  unfold no_vt_ff. intros H b Hb. rewrite forallb_forall in H. specialize (H b Hb).
-  rewrite isspace_narrow, narrow_vs_gfm, H. apply andb_true_r.
-Qed.
+Lemma gfm_filter_tf_space s : gfm_filter_ws tf_space s = gfm_filter s.
+Proof. apply gfm_filter_local. intros b _. apply tf_space_gfm. Qed.
 
-Lemma isspace_sub_gfm b : isspace b = true -> gfm_ws b = true.
-Proof. rewrite isspace_narrow, narrow_vs_gfm. intro H. apply andb_true_iff in H. tauto. Qed.
+(* what the code does IS the GFM reading (line tabulation and form feed end a tag name too) *)
+Lemma tagfilter_spec s : tagfilter s = Ok (disallowed_at s).
+Proof. rewrite tagfilter_model, disallowed_tf_space. reflexivity. Qed.
 
-Lemma disallowed_isspace_narrow s : disallowed_at_ws isspace s = disallowed_at_narrow s.
-Proof. apply disallowed_local. intros b _. apply isspace_narrow. Qed.
+Lemma tagfilter_block_spec s : tagfilter_block s = Ok (gfm_filter s).
+Proof. rewrite tagfilter_block_model, gfm_filter_tf_space. reflexivity. Qed.
 
-Lemma gfm_filter_isspace_narrow s : gfm_filter_ws isspace s = gfm_filter_narrow s.
-Proof. apply gfm_filter_local. intros b _. apply isspace_narrow. Qed.
-
-(* what the code does, in spec terms *)
-Lemma tagfilter_exact s : tagfilter s = Ok (disallowed_at_narrow s).
-Proof. rewrite tagfilter_model, disallowed_isspace_narrow. reflexivity. Qed.
-
-Lemma tagfilter_block_exact s : tagfilter_block s = Ok (gfm_filter_narrow s).
-Proof. rewrite tagfilter_block_model, gfm_filter_isspace_narrow. reflexivity. Qed.
-
-(* the GFM reading (line tabulation and form feed end a tag name too) *)
-Definition tagfilter_spec_full_statement : Prop := forall s, tagfilter s = Ok (disallowed_at s).
-Definition tagfilter_block_spec_full_statement : Prop := forall s, tagfilter_block s = Ok (gfm_filter s).
-
-Definition vtff_witness : bytes := [x3c; x74; x69; x74; x6c; x65; x0c; x3e].   (* LT title FF GT *)
-
-Lemma tagfilter_spec_refuted : ~ tagfilter_spec_full_statement.
-Proof.
-  intro H. specialize (H vtff_witness). rewrite tagfilter_exact in H. vm_compute in H. discriminate.
-Qed.
-
-Lemma tagfilter_block_spec_refuted : ~ tagfilter_block_spec_full_statement.
-Proof.
-  intro H. specialize (H vtff_witness). rewrite tagfilter_block_exact in H. vm_compute in H. discriminate.
-Qed.
-
-Lemma tagfilter_spec_partial s : no_vt_ff s = true -> tagfilter s = Ok (disallowed_at s).
-Proof.
-  intro H. rewrite tagfilter_model. f_equal. apply disallowed_local. apply isspace_gfm_on. exact H.
-Qed.
-
-Lemma tagfilter_block_spec_partial s : no_vt_ff s = true -> tagfilter_block s = Ok (gfm_filter s).
-Proof.
-  intro H. rewrite tagfilter_block_model. f_equal. apply gfm_filter_local. apply isspace_gfm_on. exact H.
-Qed.
+(* the witness of the repaired defect C14-a (tagfilter_vt_ff): LT title FF GT *)
+Definition vtff_witness : bytes := [x3c; x74; x69; x74; x6c; x65; x0c; x3e].
 
 (* the code never filters anything but a GFM-disallowed tag *)
 Lemma tagfilter_sound s : tagfilter s = Ok true -> disallowed_at s = true.
-Proof.
-  rewrite tagfilter_model. intro H. injection H as D.
-  exact (disallowed_mono isspace gfm_ws isspace_sub_gfm s D).
-Qed.
+Proof. rewrite tagfilter_spec. intro H. injection H as D. exact D. Qed.
 
 (* ---------------------------------------------------------------- nothing else is altered *)
 
@@ -595,12 +552,12 @@ Section Structural.
 End Structural.
 
 Lemma gfm_ws_amp : gfm_ws x26 = false. Proof. reflexivity. Qed.
-Lemma narrow_ws_amp : narrow_ws x26 = false. Proof. reflexivity. Qed.
 
-(* under the GFM reading a tag DOES survive the code's filter: the known finding *)
-Lemma filter_clean_gfm_refuted : exists s o, tagfilter_block s = Ok o /\ any_disallowed o = true.
+(* no disallowed tag survives the code's filter *)
+Lemma block_clean s o : tagfilter_block s = Ok o -> any_disallowed o = false.
 Proof.
-  exists vtff_witness. eexists. split; [apply tagfilter_block_exact|]. vm_compute. reflexivity.
+  intro H. rewrite tagfilter_block_spec in H. injection H as <-.
+  exact (filter_clean_ws gfm_ws gfm_ws_amp s).
 Qed.
 
 (* ---------------------------------------------------------------- the two node renderers *)
@@ -612,11 +569,11 @@ Proof.
 Qed.
 
 Lemma inline_payload_exact lit :
-  html_inline_payload false true true lit = Ok (lt_escape_first_ws narrow_ws lit).
+  html_inline_payload false true true lit = Ok (lt_escape_first lit).
 Proof.
-  unfold html_inline_payload. cbn [negb]. rewrite tagfilter_exact. cbn [bind].
-  unfold lt_escape_first_ws. fold disallowed_at_narrow.
-  destruct (disallowed_at_narrow lit) eqn:D; [|reflexivity].
+  unfold html_inline_payload. cbn [negb]. rewrite tagfilter_spec. cbn [bind].
+  unfold lt_escape_first, lt_escape_first_ws. fold disallowed_at.
+  destruct (disallowed_at lit) eqn:D; [|reflexivity].
   destruct (disallowed_lt _ _ D) as [r E]. subst lit. reflexivity.
 Qed.
 
@@ -627,9 +584,9 @@ Proof.
 Qed.
 
 Lemma block_payload_exact lit :
-  html_block_payload false true true lit = Ok (gfm_filter_narrow lit) /\
+  html_block_payload false true true lit = Ok (gfm_filter lit) /\
   html_block_payload false true false lit = Ok lit.
-Proof. split; [apply tagfilter_block_exact|reflexivity]. Qed.
+Proof. split; [apply tagfilter_block_spec|reflexivity]. Qed.
 
 Lemma inline_payload_off lit : html_inline_payload false true false lit = Ok lit.
 Proof. reflexivity. Qed.
@@ -641,17 +598,11 @@ Proof. destruct e, u; cbn; try discriminate; intros _; split; reflexivity. Qed.
 
 Lemma block_lt_expansion s o : tagfilter_block s = Ok o -> lt_expansion s o = true.
 Proof.
-  intro H. rewrite tagfilter_block_exact in H. injection H as <-.
-  exact (filter_lt_expansion narrow_ws s).
-Qed.
-
-Lemma block_clean_partial s o : no_vt_ff s = true -> tagfilter_block s = Ok o -> any_disallowed o = false.
-Proof.
-  intros Hs H. rewrite (tagfilter_block_spec_partial s Hs) in H. injection H as <-.
-  exact (filter_clean_ws gfm_ws gfm_ws_amp s).
+  intro H. rewrite tagfilter_block_spec in H. injection H as <-.
+  exact (filter_lt_expansion gfm_ws s).
 Qed.
 
 Lemma inline_cascade lit :
-  html_inline_payload false true true lit = Ok (lt_escape_first_ws narrow_ws lit) /\
+  html_inline_payload false true true lit = Ok (lt_escape_first lit) /\
   html_inline_payload false true false lit = Ok lit.
 Proof. split; [apply inline_payload_exact | apply inline_payload_off]. Qed.
